@@ -9,8 +9,6 @@ import (
 	"flag"
 	"fmt"
 	"net"
-	"os"
-	"os/exec"
 	"sync"
 	"sync/atomic"
 	"syscall"
@@ -109,22 +107,22 @@ type rig struct {
 	hosts []types.Host // aligned with addrs
 	lsn   types.Metrics
 
-	holdMu sync.Mutex
-	hold   chan struct{}
+	holdMu   sync.Mutex
+	hold     chan struct{}
 	plans    sync.Map // token -> *ReqPlan
 	attempts sync.Map // token -> *int32
 	done     sync.Map // kind -> *int32 (upstream actions actually executed)
 
 	reqLeakKnown int32 // xprotocol retry leak hit (listed finding): request counters are dropped from the expectation, no idle probes
 	connNegKnown int32 // transient negative upstream connection_active seen (listed finding): those gauges are no longer sampled for sign
-	h1Known    int32 // F10 hit (listed finding): no more idle probes in this case
-	retrKnown  int32 // retries counter went negative and that is a listed finding: skip the retries terms
-	minSeen    obs
-	sampleStop chan struct{}
-	sampleWG   sync.WaitGroup
-	negMu      sync.Mutex
-	negWhat    string
-	samples    int64
+	h1Known      int32 // F10 hit (listed finding): no more idle probes in this case
+	retrKnown    int32 // retries counter went negative and that is a listed finding: skip the retries terms
+	minSeen      obs
+	sampleStop   chan struct{}
+	sampleWG     sync.WaitGroup
+	negMu        sync.Mutex
+	negWhat      string
+	samples      int64
 
 	tcpConns sync.Map // upstream tcp: conn id -> struct{}
 }
@@ -692,16 +690,6 @@ func (r *rig) settle(phase string, want expectFn, desc func() string) bool {
 			if ev.IsKnown(r.part, sig) { // listed finding: drop the request counters, judge the rest of the case
 				atomic.StoreInt32(&r.reqLeakKnown, 1)
 				return r.settle(phase, want, desc)
-			}
-		}
-		if os.Getenv("C10_DEBUG") != "" {
-			fmt.Fprintf(os.Stderr, "DBG RELOOKUP cluster=%s active=%d\n", r.c.ClusterName,
-				metrics.NewClusterStats(r.c.ClusterName).Counter(metrics.UpstreamConnectionActive).Count())
-			for _, u := range r.ups {
-				if u != nil {
-					out, _ := exec.Command("sh", "-c", "ss -tn | grep "+u.Addr).CombinedOutput()
-					os.Stderr.WriteString("DBG SS " + u.Addr + "\n" + string(out))
-				}
 			}
 		}
 		ev.Fail(r.t, r.part, sig, "%s: %s\nstate (unchanged for %v): %s\ncase: %s", phase, why, stuckWindow, o, desc())
